@@ -3,6 +3,7 @@ import FgaVerif.Proofs.MergeValues
 import FgaVerif.Proofs.MergeAttr
 import FgaVerif.Proofs.MergeConds
 import FgaVerif.Proofs.MergeRelAttr
+import FgaVerif.Proofs.MergeErrFile
 import FgaVerif.Model.Utils
 /-! # C07 — module merge succeeds iff conflict-free (and C12: independently of the order of the files)
 
@@ -776,5 +777,181 @@ example : isOk (merge [core, extClash] "1.2") = false := by decide
 example : isOk (merge [extClash, core] "1.2") = false := by decide
 example : isOk (merge [core, core] "1.2") = false := by decide
 example : isOk (merge [extOk] "1.2") = false := by decide
+
+/-! ### on any conflict an error is returned, naming the offending file
+
+    The last clause of C07.  `merge_never_partial` and `merge_no_panic` above say that a merge that
+    does not succeed returns a non-empty error list (never a model, never a panic of its own).  The
+    theorems below say what stands in that list, for **every** list of files and with no hypothesis
+    but that `merge` returned it (proofs in `Proofs/MergeErrFile.lean`; `merge_error_cases` there is
+    the complete case analysis):
+
+    * `merge_errors_name_input_files` — every conflict names one of the input files;
+    * `syn_errors_come_from_files` — every syntax error in the list is an error of some file's own parse;
+    * `dup_type_error_in_file`, `dup_condition_error_in_file`, `not_module_error_in_file`,
+      `missing_target_error_in_file`, `relation_clash_error_in_file` — per kind of conflict, recognised
+      by its message: the named file really contains the offending declaration, and the declaration
+      really is in conflict (with what, is said per kind).  Where file names repeat in the list "the
+      file named so" is ambiguous, so the statements give *a* file of that name which contains the
+      declaration.  The position of a first-loop error is computed in that file's text; the position of
+      a second-loop error in the text the merger kept under that name (an input file of that name: the
+      same file when names are distinct).
+
+    Two places where the literal wording of the clause would be false of the code, and what is proved
+    instead:
+    * "extended type N does not exist" is raised when `N` is not *registered*, which is the case when no
+      file defines `N`, **or** when the first definition of `N` carries no module name (then that
+      definition was reported as "file is not a module" and not registered).
+      `missing_target_not_defined` gives the plain reading when all definitions carry a module name.
+    * the message "relation R already exists on type N" does not determine `R` and `N` when names may
+      contain blanks, so `relation_clash_error_in_file` gives a block and a relation *with that
+      message*; `relation_clash_error_exact` gives exactly `R` and `N` for blank-free relation names. -/
+
+/-- **A.** every conflict reported by the merge names one of the input files -/
+theorem merge_errors_name_input_files (fs : List FileIn) (v : String) (es : List MergeErr)
+    (h : merge fs v = .errors es) (msg file : String) (pos : Pos) (hm : MergeErr.mod msg file pos ∈ es) :
+    ∃ f ∈ fs, f.name = file :=
+  Merge.merge_errors_name_input_files fs v es h msg file pos hm
+
+/-- **C.** every syntax error in the merge's error list is an error of some input file's own parse -/
+theorem syn_errors_come_from_files (fs : List FileIn) (v : String) (es : List MergeErr)
+    (h : merge fs v = .errors es) (e : SynErr) (hm : MergeErr.syn e ∈ es) :
+    ∃ f ∈ fs, ∃ l, f.outcome = .errors l ∧ e ∈ l :=
+  Merge.syn_errors_come_from_files fs v es h e hm
+
+/-- **B1.** "duplicate type definition N" names a file `f` (standing after the files `pre` in the list)
+    whose parse result has, at some index `i`, a type definition named `N` that is not an extension;
+    and `N` is also defined, not as an extension, by one of the files before `f` or at a smaller index
+    in `f` itself.  The position is that of `type N` in `f`'s text. -/
+theorem dup_type_error_in_file (fs : List FileIn) (v : String) (es : List MergeErr)
+    (h : merge fs v = .errors es) (N file : String) (pos : Pos)
+    (hm : MergeErr.mod ("duplicate type definition " ++ N) file pos ∈ es) :
+    ∃ pre f post mdl exts i td, fs = pre ++ f :: post ∧ f.name = file ∧ f.outcome = .ok mdl exts ∧
+      mdl.types[i]? = some td ∧ td.name = N ∧ isExtensionAt exts N i = false ∧
+      (N ∈ pre.flatMap fileBaseNames ∨
+        ∃ j td', j < i ∧ mdl.types[j]? = some td' ∧ td'.name = N ∧ isExtensionAt exts N j = false) ∧
+      pos = constructLineAndColumnData (splitLines f.contents)
+              (lineWithPrefix ("type " ++ N) (splitLines f.contents)) N :=
+  Merge.dup_type_error_in_file fs v es h N file pos hm
+
+/-- **B2.** "duplicate condition N" names a file `f` that declares condition `N`, and `N` is also
+    declared by one of the files before `f` (or at a smaller index in `f` itself).  The position is
+    that of `condition N` in `f`'s text. -/
+theorem dup_condition_error_in_file (fs : List FileIn) (v : String) (es : List MergeErr)
+    (h : merge fs v = .errors es) (N file : String) (pos : Pos)
+    (hm : MergeErr.mod ("duplicate condition " ++ N) file pos ∈ es) :
+    ∃ (pre : List FileIn) (f : FileIn) (post : List FileIn) (mdl : Model)
+      (exts : Option (List (String × Nat))) (i : Nat) (c : Condition),
+      fs = pre ++ f :: post ∧ f.name = file ∧ f.outcome = .ok mdl exts ∧
+      mdl.conds[i]? = some (N, c) ∧
+      (N ∈ pre.flatMap fileCondNames ∨ ∃ (j : Nat) (c' : Condition), j < i ∧ mdl.conds[j]? = some (N, c')) ∧
+      pos = constructLineAndColumnData (splitLines f.contents)
+              (lineWithPrefix ("condition " ++ N) (splitLines f.contents)) N :=
+  Merge.dup_condition_error_in_file fs v es h N file pos hm
+
+/-- **B3.** "file is not a module" names a file that declares a type (not an extension) without module
+    name, or a condition without module metadata; it carries no position -/
+theorem not_module_error_in_file (fs : List FileIn) (v : String) (es : List MergeErr)
+    (h : merge fs v = .errors es) (file : String) (pos : Pos)
+    (hm : MergeErr.mod "file is not a module" file pos ∈ es) :
+    ∃ f ∈ fs, f.name = file ∧ ∃ mdl exts, f.outcome = .ok mdl exts ∧
+      ((∃ i td, mdl.types[i]? = some td ∧ isExtensionAt exts td.name i = false ∧ modName td = "") ∨
+       (∃ (i : Nat) (name : String) (c : Condition), mdl.conds[i]? = some (name, c) ∧ c.md = none)) ∧
+      pos = {} :=
+  Merge.not_module_error_in_file fs v es h file pos hm
+
+/-- **B4.** "extended type N does not exist" names a file that contains an `extend type N` block, and `N`
+    is not registered: the first definition of `N` in the order of the files, if there is one at all,
+    carries no module name.  The position is that of `extend type N` in the text kept under that name. -/
+theorem missing_target_error_in_file (fs : List FileIn) (v : String) (es : List MergeErr)
+    (h : merge fs v = .errors es) (N file : String) (pos : Pos)
+    (hm : MergeErr.mod ("extended type " ++ N ++ " does not exist") file pos ∈ es) :
+    ∃ f ∈ fs, f.name = file ∧ ∃ e ∈ fileExtDefs f, e.name = N ∧
+      (∀ d, (fs.flatMap fileBaseDefs).find? (fun d => d.name == N) = some d → modName d = "") ∧
+      ∃ f' ∈ fs, f'.name = file ∧
+        pos = constructLineAndColumnData (splitLines f'.contents)
+                (lineWithPrefix ("extend type " ++ N) (splitLines f'.contents)) N :=
+  Merge.missing_target_error_in_file fs v es h N file pos hm
+
+/-- … when every definition carries a module name, no file defines `N`: `ConflictFree.targets` fails -/
+theorem missing_target_not_defined (fs : List FileIn) (v : String) (es : List MergeErr)
+    (h : merge fs v = .errors es) (N file : String) (pos : Pos)
+    (hm : MergeErr.mod ("extended type " ++ N ++ " does not exist") file pos ∈ es)
+    (hmod : ∀ d ∈ fs.flatMap fileBaseDefs, modName d ≠ "") : N ∉ fs.flatMap fileBaseNames :=
+  Merge.missing_target_not_defined fs v es h N file pos hm hmod
+
+/-- what "an `extend type` block of file `f`" means in terms of the file's parse result -/
+theorem mem_fileExtDefs_iff (f : FileIn) (e : TypeDef) :
+    e ∈ fileExtDefs f ↔
+      ∃ mdl exts i, f.outcome = .ok mdl exts ∧ mdl.types[i]? = some e ∧ isExtensionAt exts e.name i = true :=
+  Merge.mem_fileExtDefs_iff f e
+
+/-- **B5.** "relation R already exists on type N" names a file that contains an `extend type` block `e`
+    declaring a relation `k`, the message being the one for `k` and `e.name`; and `k` is already on that
+    type: declared by its base definition, or by another extension block (the extension blocks of the
+    files contribute `k` to `e.name` at least twice).  The position is that of `define k` in the text
+    kept under that name. -/
+theorem relation_clash_error_in_file (fs : List FileIn) (v : String) (es : List MergeErr)
+    (h : merge fs v = .errors es) (R N file : String) (pos : Pos)
+    (hm : MergeErr.mod ("relation " ++ R ++ " already exists on type " ++ N) file pos ∈ es) :
+    ∃ f ∈ fs, f.name = file ∧ ∃ e ∈ fileExtDefs f, ∃ k ∈ AList.keys e.relations,
+      "relation " ++ k ++ " already exists on type " ++ e.name = "relation " ++ R ++ " already exists on type " ++ N ∧
+      (k ∈ contrib e.name (fs.flatMap fileBaseDefs) ∨ 2 ≤ (contrib e.name (fs.flatMap fileExtDefs)).count k) ∧
+      ∃ f' ∈ fs, f'.name = file ∧
+        pos = constructLineAndColumnData (splitLines f'.contents)
+                (lineWithPrefix ("define " ++ k) (splitLines f'.contents)) k :=
+  Merge.relation_clash_error_in_file fs v es h R N file pos hm
+
+/-- … with relation names free of blanks (as the DSL's identifiers are) the block extends exactly `N`
+    and declares exactly `R`, and `ConflictFree.relations` fails at `N` -/
+theorem relation_clash_error_exact (fs : List FileIn) (v : String) (es : List MergeErr)
+    (h : merge fs v = .errors es) (R N file : String) (pos : Pos)
+    (hm : MergeErr.mod ("relation " ++ R ++ " already exists on type " ++ N) file pos ∈ es)
+    (hR : ' ' ∉ R.toList)
+    (hfs : ∀ f ∈ fs, ∀ e ∈ fileExtDefs f, ∀ k ∈ AList.keys e.relations, ' ' ∉ k.toList) :
+    (∃ f ∈ fs, f.name = file ∧ ∃ e ∈ fileExtDefs f, e.name = N ∧ R ∈ AList.keys e.relations) ∧
+    (R ∈ contrib N (fs.flatMap fileBaseDefs) ∨ 2 ≤ (contrib N (fs.flatMap fileExtDefs)).count R) ∧
+    ¬ (contrib N (fs.flatMap fileBaseDefs ++ fs.flatMap fileExtDefs)).Nodup :=
+  Merge.relation_clash_error_exact fs v es h R N file pos hm hR hfs
+
+/-! ### non-vacuity: each kind of error is raised, naming the offending file -/
+
+def dupUser : FileIn := { name := "dup.fga", contents := "module dup\ntype user", outcome := .ok { schema := "", types := [{ name := "user", relations := [], md := some { relations := [], «module» := "dup" } }], conds := [] } (some []) }
+def noModule : FileIn := { name := "plain.fga", contents := "type group", outcome := .ok { schema := "", types := [{ name := "group", relations := [], md := some { relations := [] } }], conds := [] } none }
+def broken : FileIn := { name := "broken.fga", contents := "module m\ntyp", outcome := .errors [{ line := 1, col := 0, msg := "mismatched input 'typ'" }] }
+
+def errorsOf : MergeOutcome → List MergeErr
+  | .errors es => es
+  | _ => []
+
+/-- a type defined twice: the error names the second file, at `type user` in its text -/
+example : merge [core, dupUser] "1.2" =
+    .errors [.mod "duplicate type definition user" "dup.fga" { lineStart := 1, lineEnd := 1, colStart := 5, colEnd := 9 }] := by rfl
+/-- … and the first file when the order is the other one -/
+example : (errorsOf (merge [dupUser, core] "1.2")).map (fun | .mod m f _ => (m, f) | .syn _ => ("", "")) =
+    [("duplicate type definition user", "core.fga")] := by decide
+/-- a relation declared twice: the error names the extending file, at `define viewer` in its text -/
+example : merge [core, extClash] "1.2" =
+    .errors [.mod "relation viewer already exists on type doc" "ext.fga" { lineStart := 3, lineEnd := 3, colStart := 11, colEnd := 17 }] := by rfl
+/-- an extension without target: the error names the extending file, at `extend type doc` -/
+example : merge [extOk] "1.2" =
+    .errors [.mod "extended type doc does not exist" "ext.fga" { lineStart := 1, lineEnd := 1, colStart := 12, colEnd := 15 }] := by rfl
+/-- a file without `module` header, and a file that did not parse (its own error is passed on) -/
+example : merge [core, noModule, broken] "1.2" =
+    .errors [.mod "file is not a module" "plain.fga" {}, .syn { line := 1, col := 0, msg := "mismatched input 'typ'" }] := by rfl
+/-- the hypotheses of the theorems are satisfiable: theorem A on the first example -/
+example : ∃ f ∈ [core, dupUser], f.name = "dup.fga" :=
+  merge_errors_name_input_files [core, dupUser] "1.2" _ rfl _ _ _ (List.mem_singleton.2 rfl)
+/-- … and B1: `user` is defined by a file standing before the named one -/
+example : ∃ pre f post, [core, dupUser] = pre ++ f :: post ∧ f.name = "dup.fga" ∧
+    ("user" ∈ pre.flatMap fileBaseNames ∨ ∃ mdl exts, f.outcome = .ok mdl exts ∧ 2 ≤ mdl.types.length) := by
+  obtain ⟨pre, f, post, mdl, exts, i, td, h1, h2, h3, h4, _, _, h7, _⟩ :=
+    dup_type_error_in_file [core, dupUser] "1.2" _ rfl "user" "dup.fga" _ (List.mem_singleton.2 rfl)
+  refine ⟨pre, f, post, h1, h2, ?_⟩
+  rcases h7 with h7 | ⟨j, td', hj, _⟩
+  · exact Or.inl h7
+  · refine Or.inr ⟨mdl, exts, h3, ?_⟩
+    have := (List.getElem?_eq_some_iff.1 h4).1
+    omega
 
 end FgaVerif.Props.C07
